@@ -16,7 +16,8 @@ Record package := { p_name : name; p_decls : list (name * nid) }.
 Record config := {
   c_importer : path -> option package;     (* BuildOptions.Packages: the importer function *)
   c_globals : list (name * nid);           (* BuildOptions.Globals *)
-  c_allow_go : bool                        (* BuildOptions.AllowGoStmt *)
+  c_allow_go : bool;                       (* BuildOptions.AllowGoStmt *)
+  c_template : bool                        (* BuildTemplate (true) or Build (false) *)
 }.
 
 Inductive import_form := IDefault | IName (n : name) | IBlank | IDot.
@@ -64,7 +65,9 @@ Definition println_name : name := 2.
 
 Definition universe : scope := [(print_name, BPrint); (println_name, BPrint)].
 
-Definition global_scope (cfg : config) : scope := map (fun g => (fst g, BNative (snd g) None)) (c_globals cfg).
+(* BuildOptions.Globals is used for templates only *)
+Definition global_scope (cfg : config) : scope :=
+  if c_template cfg then map (fun g => (fst g, BNative (snd g) None)) (c_globals cfg) else [].
 
 (* scopes.Declare: insert if absent *)
 Definition declare (s : scope) (x : name) (b : binding) : scope :=
@@ -157,7 +160,12 @@ Definition check_ref (locals file globals : scope) (r : ref) (a : acc) : acc + e
 Fixpoint check_stmt (cfg : config) (locals file globals : scope) (s : stmt) (a : acc) : acc + error :=
   match s with
   | SCall r | SDefer r => check_ref locals file globals r a
-  | SGo r => if c_allow_go cfg then check_ref locals file globals r a else inr EGoNotAvailable
+  | SGo r =>
+    (* the call is checked first, then the option *)
+    match check_ref locals file globals r a with
+    | inr e => inr e
+    | inl a' => if c_allow_go cfg then inl a' else inr EGoNotAvailable
+    end
   | SBlock x b =>
     (fix go (l : list stmt) (a : acc) : acc + error :=
        match l with
@@ -198,7 +206,8 @@ Definition check (cfg : config) (g : prog) : outcome + error :=
     match check_stmts cfg [] file (global_scope cfg) (g_body g) {| a_natives := []; a_used := []; a_prints := 0 |} with
     | inr e => inr e
     | inl a =>
-      match first_unused (g_imports g) (a_used a) with
+      (* unused imports are an error in programs only *)
+      match (if c_template cfg then None else first_unused (g_imports g) (a_used a)) with
       | Some p => inr (EUnusedImport p)
       | None => inl {| o_natives := a_natives a; o_asked := asked; o_prints := a_prints a |}
       end
